@@ -2629,6 +2629,14 @@ class FnF(Fn):
         finally:
             self.tryctx = saved
 
+    def try_ex(self, node, env):
+        """self.ex for a speculative reading (the caller restores its snapshot): (None, None) where the expression is outside
+        the subset, so that the construct can still be tried by Fn"""
+        try:
+            return self.ex(node, env)
+        except Untranslatable:
+            return (None, None)
+
     # ---- expressions
     def rhs(self, node, env):
         if isinstance(node, ast.Attribute) and node.attr in ("version", "max_int", "width") and self.module_of(node.value, env):
@@ -2675,21 +2683,21 @@ class FnF(Fn):
             return ("bool", t)
         if isinstance(node, ast.BinOp) and isinstance(node.op, ast.Add):
             snap, pre0 = self.snapshot(), list(self.pre)
-            (ta, a), (tb, b) = self.ex(node.left, env), self.ex(node.right, env)
+            (ta, a), (tb, b) = self.try_ex(node.left, env), self.try_ex(node.right, env)
             if ta == "str" and tb == "str":
                 return ("str", "(String.append %s %s)" % (a, b))      # concatenation of bytes / text
             self.restore(snap)
             self.pre = pre0
         if isinstance(node, ast.Compare) and len(node.ops) == 1 and isinstance(node.ops[0], ast.In) and dotted(node.left) != "self":
             snap, pre0 = self.snapshot(), list(self.pre)
-            (ta, a), (tb, b) = self.ex(node.left, env), self.ex(node.comparators[0], env)
+            (ta, a), (tb, b) = self.try_ex(node.left, env), self.try_ex(node.comparators[0], env)
             if ta == "str" and tb == "str":
                 return ("bool", "(py_bytes_in %s %s)" % (a, b))        # needle in hay on bytes
             self.restore(snap)
             self.pre = pre0
         if isinstance(node, ast.BinOp) and isinstance(node.op, ast.Mod):
             snap, pre0 = self.snapshot(), list(self.pre)
-            ty, t = self.ex(node.left, env)
+            ty, t = self.try_ex(node.left, env)
             if ty == "str":                                 # text % int, text % tuple(<list of ints>)
                 r = node.right
                 if self.builtin_call(r, "tuple", env, 1):
